@@ -1,4 +1,5 @@
 import DoviModel.Model.Ops
+import DoviModel.Proofs.ConvertProof
 /-! # C04 — profile conversion modes do what is documented and preserve dynamic metadata -/
 namespace Dovi.C04
 open Dovi
@@ -62,5 +63,461 @@ theorem mode4_target (r r' : Rpu) (h : r.convertWithMode .to84 = .ok r') :
   subst h
   refine ⟨rfl, ?_, rfl⟩
   simp [Header.getDoviProfile, p8DefaultHeader]
+
+/-! ## `convertWithMode` for ALL RPU values (arbitrary lists, arbitrary field values)
+
+Vocabulary (definitions in `Proofs/ConvertProof.lean`, all one-line record updates):
+`melHeader h` / `p81Header h` = `h` with `(el_spatial_resampling_filter_flag, disable_residual_flag)` set to
+`(true, false)` / `(false, true)`; `p5Header h` = `p81Header h` with `vdr_rpu_profile := 1`,
+`bl_video_full_range_flag := false`; `p84Header h` = `p8DefaultHeader` with `vdr_dm_metadata_present_flag` and
+`reserved_zero_3bits` of `h`; `stripNlq m` = `m` without NLQ (`nlq*` fields `none`, partitions 0), curves kept;
+`melMapping m` = `m` with the MEL NLQ; `Consistent r` = `dovi_profile` / `el_type` are the values derived from the
+header / mapping (true of every parsed RPU and of every conversion result: `convert_consistent`). -/
+open ConvertProof
+
+/-! ### success / error table -/
+
+/-- which sources a mode accepts -/
+def Accepts (m : Mode) (r : Rpu) : Prop :=
+  match m with
+  | .lossless => True
+  | .toMel => (r.dovi_profile = 7 ∨ r.dovi_profile = 8) ∧
+              (∀ mp, r.rpu_data_mapping = some mp → mp.nlq = none → r.dovi_profile = 8)
+  | .to81 => r.dovi_profile = 5 ∨ r.dovi_profile = 7 ∨ r.dovi_profile = 8
+  | .to84 => True
+  | .to81MappingPreserved => r.dovi_profile = 7 ∨ r.dovi_profile = 8
+
+/-- the conversion succeeds exactly on the accepted sources, … -/
+theorem convert_succeeds_iff (m : Mode) (r : Rpu) : (∃ r', r.convertWithMode m = .ok r') ↔ Accepts m r := by
+  have e : Accepts m r ↔ ConvertOk m r := by cases m <;> exact Iff.rfl
+  rw [e]
+  constructor
+  · rintro ⟨r', h⟩; exact ((cw_ok_iff m r r').1 h).1
+  · intro h; exact ⟨_, cw_ok m r h⟩
+
+/-- … is an error (never a panic) on all others -/
+theorem convert_error_iff (m : Mode) (r : Rpu) : r.convertWithMode m = .error ↔ ¬ Accepts m r := by
+  have e : Accepts m r ↔ ConvertOk m r := by cases m <;> exact Iff.rfl
+  rw [e]
+  constructor
+  · intro h hok; rw [cw_ok m r hok] at h; cases h
+  · exact cw_err m r
+
+theorem convert_never_panics (m : Mode) (r : Rpu) : r.convertWithMode m ≠ .panic := by
+  by_cases h : ConvertOk m r
+  · rw [cw_ok m r h]; simp
+  · rw [cw_err m r h]; simp
+
+/-- mode 1 on a profile 7 RPU whose mapping carries no NLQ is rejected (the only non-profile reason to fail) -/
+example : ({ dovi_profile := 7, rpu_data_mapping := some {} } : Rpu).convertWithMode .toMel = .error := by decide
+
+/-! ### what every mode leaves alone -/
+
+/-- 4. every mode other than 0 marks the RPU as modified (so the CRC is recomputed on write); mode 0 does not
+touch the flag -/
+theorem convert_marks_modified (m : Mode) (r r' : Rpu) (h : r.convertWithMode m = .ok r') :
+    (m ≠ .lossless → r'.modified = true) ∧ (m = .lossless → r'.modified = r.modified) := by
+  obtain ⟨hok, e⟩ := (cw_ok_iff m r r').1 h
+  subst e
+  cases m <;> simp [fin, preTarget]
+  split <;> rfl
+
+/-- the unparsed remainder, the stored CRC and the trailing-zero count are never touched -/
+theorem convert_untouched (m : Mode) (r r' : Rpu) (h : r.convertWithMode m = .ok r') :
+    r'.remaining = r.remaining ∧ r'.rpu_data_crc32 = r.rpu_data_crc32 ∧ r'.trailing_zeroes = r.trailing_zeroes := by
+  obtain ⟨hok, e⟩ := (cw_ok_iff m r r').1 h
+  subst e
+  cases m <;> simp [fin, preTarget]
+  split <;> simp
+
+/-- every result has its profile / EL type derived from its own header / mapping -/
+theorem convert_consistent (m : Mode) (r r' : Rpu) (h : r.convertWithMode m = .ok r') : Consistent r' := by
+  obtain ⟨_, e⟩ := (cw_ok_iff m r r').1 h
+  subst e
+  exact fin_consistent _
+
+/-! ### 1. the DM payload -/
+
+/-- the DM payload of the result: untouched by modes 0 and 1, exactly `set_p81_coeffs` of the source for
+modes 2/3, 4 and 5 (present iff it was present) -/
+theorem convert_dm_exact (m : Mode) (r r' : Rpu) (h : r.convertWithMode m = .ok r') :
+    r'.vdr_dm_data = if m = .lossless ∨ m = .toMel then r.vdr_dm_data else r.vdr_dm_data.map DmData.setP81Coeffs := by
+  obtain ⟨hok, e⟩ := (cw_ok_iff m r r').1 h
+  subst e
+  cases m <;> simp [fin, preTarget]
+  split <;> rfl
+
+/-- what `set_p81_coeffs` keeps, field by field: everything except `main[0..21)` (the two colour matrices and
+the YCC offsets) and `main[26]` (`signal_color_space`) — in particular `signal_eotf*` (21..24),
+`signal_bit_depth` (25), `signal_chroma_format` (27), `signal_full_range_flag` (28), `source_min_pq` (29),
+`source_max_pq` (30), `source_diagonal` (31) and anything beyond; no assumption on the length of `main` -/
+def DmKept (d d' : DmData) : Prop :=
+  d'.compressed = d.compressed ∧ d'.affected_dm_metadata_id = d.affected_dm_metadata_id ∧
+  d'.current_dm_metadata_id = d.current_dm_metadata_id ∧ d'.scene_refresh_flag = d.scene_refresh_flag ∧
+  d'.cmv29 = d.cmv29 ∧ d'.cmv40 = d.cmv40 ∧
+  (∀ i, 21 ≤ i → i ≠ 26 → d'.main[i]? = d.main[i]?)
+
+def DmKeptOpt : Option DmData → Option DmData → Prop
+  | none, none => True
+  | some d, some d' => DmKept d d'
+  | _, _ => False
+
+theorem setP81Coeffs_kept (d : DmData) : DmKept d d.setP81Coeffs := by
+  refine ⟨rfl, rfl, rfl, rfl, rfl, rfl, fun i h1 h2 => setP81_getElem? d i h1 h2⟩
+
+/-- … and what it overwrites: the first 21 entries become the BT.2020 / PQ constants and
+`signal_color_space` (if the list is long enough to have it) becomes 0 -/
+theorem setP81Coeffs_changed (d : DmData) :
+    d.setP81Coeffs.main.take 21 =
+      [9574, 0, 13802, 9574, -1540, -5348, 9574, 17610, 0, 16777216, 134217728, 134217728,
+       7222, 8771, 390, 2654, 12430, 1300, 0, 422, 15962] ∧
+    (∀ x, d.setP81Coeffs.main[26]? = some x → x = 0) ∧
+    d.setP81Coeffs.main.length = max 21 d.main.length :=
+  ⟨setP81_take d, setP81_cs d, setP81_length d⟩
+
+/-- 1. in every mode the DM data is present iff it was, and every field outside `main[0..21)` and `main[26]`
+is unchanged (all extension blocks of both containers, both metadata ids, the scene-refresh flag, the source
+PQ range, …) -/
+theorem convert_dm_unchanged (m : Mode) (r r' : Rpu) (h : r.convertWithMode m = .ok r') :
+    DmKeptOpt r.vdr_dm_data r'.vdr_dm_data := by
+  rw [convert_dm_exact m r r' h]
+  split
+  · cases r.vdr_dm_data with
+    | none => trivial
+    | some d => exact ⟨rfl, rfl, rfl, rfl, rfl, rfl, fun _ _ _ => rfl⟩
+  · cases r.vdr_dm_data with
+    | none => trivial
+    | some d => exact setP81Coeffs_kept d
+
+/-- `setP81Coeffs_payload` without the length hypothesis -/
+theorem setP81Coeffs_payload' (d : DmData) : dmPayload d.setP81Coeffs = dmPayload d := by
+  unfold dmPayload
+  rw [setP81_getD d 29 (by omega) (by omega), setP81_getD d 30 (by omega) (by omega)]
+  rfl
+
+/-- the same as one equation on the payload tuple named by the property (ids, scene-refresh flag,
+source PQ range, both containers) -/
+theorem convert_dm_payload (m : Mode) (r r' : Rpu) (h : r.convertWithMode m = .ok r') :
+    r'.vdr_dm_data.map dmPayload = r.vdr_dm_data.map dmPayload := by
+  rw [convert_dm_exact m r r' h]
+  split
+  · rfl
+  · cases r.vdr_dm_data <;> simp [setP81Coeffs_payload']
+
+/-! ### 3. the target form, mode by mode -/
+
+/-- what "mapping kept" means: `stripNlq` changes nothing but the NLQ part and the partition counts -/
+theorem stripNlq_keeps (mp : Mapping) :
+    (stripNlq mp).curves = mp.curves ∧ (stripNlq mp).vdr_rpu_id = mp.vdr_rpu_id ∧
+    (stripNlq mp).mapping_color_space = mp.mapping_color_space ∧
+    (stripNlq mp).mapping_chroma_format_idc = mp.mapping_chroma_format_idc ∧
+    (stripNlq mp).nlq = none ∧ (stripNlq mp).nlq_method_idc = none ∧ (stripNlq mp).nlq_num_pivots_minus2 = none ∧
+    (stripNlq mp).nlq_pred_pivot_value = none ∧
+    (stripNlq mp).num_x_partitions_minus1 = 0 ∧ (stripNlq mp).num_y_partitions_minus1 = 0 :=
+  ⟨rfl, rfl, rfl, rfl, rfl, rfl, rfl, rfl, rfl, rfl⟩
+
+/-- the identity ("no-op") reshaping curve: one linear piece over [0, 1023] with coefficients (0, 1) -/
+def identityCurve : Curve :=
+  { num_pivots_minus2 := 0, pivots := [0, 1023], mapping_idc := .polynomial,
+    polynomial := some { poly_order_minus1 := [0], linear_interp_flag := [false], poly_coef_int := [[0, 1]],
+                         poly_coef := [[0, 0]] },
+    mmr := none }
+
+/-- the identity mapping derived from `mp`: no NLQ, every component curve replaced by `identityCurve` -/
+def identityMapping (mp : Mapping) : Mapping :=
+  { stripNlq mp with curves := mp.curves.map fun _ => identityCurve }
+
+theorem identityMapping_eq (mp : Mapping) : (stripNlq mp).setEmptyP81 = identityMapping mp := rfl
+
+/-- mode 0: nothing but the two derived fields is recomputed; on a consistent RPU it is the identity -/
+theorem mode0_table (r r' : Rpu) (h : r.convertWithMode .lossless = .ok r') :
+    r' = { r with dovi_profile := r.header.getDoviProfile, el_type := r.rpu_data_mapping.bind Mapping.elType } := by
+  rw [cw_lossless] at h; cases h; rfl
+
+theorem mode0_identity (r : Rpu) (hc : Consistent r) : r.convertWithMode .lossless = .ok r := by
+  rw [cw_lossless, fin_of_consistent r hc]
+
+/-- mode 1: header flags of a dual-layer stream, the NLQ of every present mapping is the MEL constant and the
+EL type is MEL; curves, DM data untouched.  The resulting profile is 7 only when `vdr_bit_depth_minus8 = 4`
+(otherwise 4: finding F8, see `mode1_p8_not_idempotent`) -/
+theorem mode1_table (r r' : Rpu) (h : r.convertWithMode .toMel = .ok r') :
+    r'.header = { r.header with el_spatial_resampling_filter_flag := true, disable_residual_flag := false } ∧
+    r'.rpu_data_mapping = r.rpu_data_mapping.map (fun mp =>
+      { mp with nlq_method_idc := some 0, nlq_num_pivots_minus2 := some 0, nlq_pred_pivot_value := some [0, 1023],
+                nlq := some Nlq.melDefault }) ∧
+    r'.el_type = r.rpu_data_mapping.map (fun _ => ElType.mel) ∧
+    r'.vdr_dm_data = r.vdr_dm_data ∧
+    r'.dovi_profile =
+      (if r.header.vdr_rpu_profile = 0 then (if r.header.bl_video_full_range_flag then 5 else 0)
+       else if r.header.vdr_rpu_profile = 1 then (if r.header.vdr_bit_depth_minus8 = 4 then 7 else 4) else 0) := by
+  obtain ⟨hok, e⟩ := (cw_ok_iff _ r r').1 h
+  subst e
+  refine ⟨rfl, rfl, ?_, rfl, gdp_mel r.header⟩
+  show (r.rpu_data_mapping.map melMapping).bind Mapping.elType = _
+  cases r.rpu_data_mapping <;> simp [elType_mel]
+
+/-- mode 1 on a consistent source with `vdr_bit_depth_minus8 = 4` (always the case for profile 7): profile 7 -/
+theorem mode1_profile7 (r r' : Rpu) (h : r.convertWithMode .toMel = .ok r')
+    (hc : r.dovi_profile = r.header.getDoviProfile) (hb : r.header.vdr_bit_depth_minus8 = 4) :
+    r'.dovi_profile = 7 := by
+  have hp := ((convert_succeeds_iff .toMel r).1 ⟨r', h⟩).1
+  rw [(mode1_table r r' h).2.2.2.2]
+  rw [hc] at hp
+  unfold Header.getDoviProfile at hp
+  by_cases h0 : r.header.vdr_rpu_profile = 0
+  · simp [h0] at hp; split at hp <;> omega
+  · by_cases h1 : r.header.vdr_rpu_profile = 1
+    · simp [h1, hb]
+    · simp [h0, h1] at hp
+
+/-- modes 2/3 on a profile 5 source: profile 8.1 header, identity mapping, no EL -/
+theorem mode2_table_p5 (r r' : Rpu) (h : r.convertWithMode .to81 = .ok r') (h5 : r.dovi_profile = 5) :
+    r'.dovi_profile = 8 ∧ r'.el_type = none ∧
+    r'.header = { r.header with el_spatial_resampling_filter_flag := false, disable_residual_flag := true,
+                                vdr_rpu_profile := 1, bl_video_full_range_flag := false } ∧
+    r'.rpu_data_mapping = r.rpu_data_mapping.map identityMapping ∧
+    r'.vdr_dm_data = r.vdr_dm_data.map DmData.setP81Coeffs := by
+  rw [cw_to81_5 r h5] at h
+  cases h
+  refine ⟨gdp_p5 r.header, bind_strip_empty _, rfl, ?_, rfl⟩
+  show (r.rpu_data_mapping.map stripNlq).map Mapping.setEmptyP81 = _
+  cases r.rpu_data_mapping <;> rfl
+
+/-- modes 2/3 on a profile 7 / 8 source: 8.1 header flags, no EL; identity mapping iff the source was FEL
+(as recorded in `el_type`), mapping kept otherwise -/
+theorem mode2_table_p78 (r r' : Rpu) (h : r.convertWithMode .to81 = .ok r')
+    (h78 : r.dovi_profile = 7 ∨ r.dovi_profile = 8) :
+    r'.el_type = none ∧
+    r'.header = { r.header with el_spatial_resampling_filter_flag := false, disable_residual_flag := true } ∧
+    r'.rpu_data_mapping =
+      (if r.el_type = some .fel then r.rpu_data_mapping.map identityMapping else r.rpu_data_mapping.map stripNlq) ∧
+    r'.vdr_dm_data = r.vdr_dm_data.map DmData.setP81Coeffs ∧
+    (r.header.vdr_rpu_profile = 1 → r'.dovi_profile = 8) := by
+  rw [cw_to81_78 r h78] at h
+  cases h
+  refine ⟨?_, rfl, ?_, rfl, ?_⟩
+  · show (if r.el_type = some .fel then _ else _ : Option Mapping).bind Mapping.elType = none
+    split
+    · exact bind_strip_empty _
+    · exact bind_strip _
+  · show (if r.el_type = some .fel then _ else _ : Option Mapping) = _
+    split
+    · cases r.rpu_data_mapping <;> rfl
+    · rfl
+  · intro h1
+    show (p81Header r.header).getDoviProfile = 8
+    rw [gdp_p81]; simp [h1]
+
+/-- mode 4, from ANY source (every profile is accepted): the default profile 8 header keeping only the two DM
+signalling fields, the static profile 8.4 reshaping, no EL -/
+theorem mode4_table (r r' : Rpu) (h : r.convertWithMode .to84 = .ok r') :
+    r'.dovi_profile = 8 ∧ r'.el_type = none ∧
+    r'.header = { p8DefaultHeader with vdr_dm_metadata_present_flag := r.header.vdr_dm_metadata_present_flag,
+                                       reserved_zero_3bits := r.header.reserved_zero_3bits } ∧
+    r'.rpu_data_mapping = some profile84Mapping ∧
+    r'.vdr_dm_data = r.vdr_dm_data.map DmData.setP81Coeffs := by
+  rw [cw_to84] at h
+  cases h
+  exact ⟨gdp_p84 r.header, rfl, rfl, rfl, rfl⟩
+
+/-- mode 5: 8.1 header flags, no EL, mapping kept -/
+theorem mode5_table (r r' : Rpu) (h : r.convertWithMode .to81MappingPreserved = .ok r') :
+    r'.el_type = none ∧
+    r'.header = { r.header with el_spatial_resampling_filter_flag := false, disable_residual_flag := true } ∧
+    r'.rpu_data_mapping = r.rpu_data_mapping.map stripNlq ∧
+    r'.vdr_dm_data = r.vdr_dm_data.map DmData.setP81Coeffs ∧
+    (r.header.vdr_rpu_profile = 1 → r'.dovi_profile = 8) := by
+  have h78 := (convert_succeeds_iff .to81MappingPreserved r).1 ⟨r', h⟩
+  rw [cw_to81mp_78 r h78] at h
+  cases h
+  refine ⟨bind_strip _, rfl, rfl, rfl, ?_⟩
+  intro h1
+  show (p81Header r.header).getDoviProfile = 8
+  rw [gdp_p81]; simp [h1]
+
+theorem getDoviProfile_78 (hd : Header) (h : hd.getDoviProfile = 7 ∨ hd.getDoviProfile = 8) :
+    hd.vdr_rpu_profile = 1 ∧ (hd.getDoviProfile = 7 → hd.vdr_bit_depth_minus8 = 4) := by
+  unfold Header.getDoviProfile at h ⊢
+  by_cases h0 : hd.vdr_rpu_profile = 0
+  · simp [h0] at h; split at h <;> omega
+  · by_cases h1 : hd.vdr_rpu_profile = 1
+    · refine ⟨h1, ?_⟩
+      simp only [h1]
+      intro h7
+      by_cases hb : hd.vdr_bit_depth_minus8 = 4
+      · exact hb
+      · revert h7; simp [hb]; split <;> omega
+    · simp [h0, h1] at h
+
+/-- under consistency, "the source was FEL" (the stored `el_type` that modes 2/3 test) means: the mapping
+carries an NLQ that is not the MEL constant -/
+theorem fel_iff (r : Rpu) (hc : Consistent r) :
+    r.el_type = some .fel ↔ ∃ mp n, r.rpu_data_mapping = some mp ∧ mp.nlq = some n ∧ n.isMel = false := by
+  rw [hc.2]
+  cases hm : r.rpu_data_mapping with
+  | none => simp
+  | some mp =>
+    cases hn : mp.nlq with
+    | none => simp [Mapping.elType, hn]
+    | some n => cases hi : n.isMel <;> simp [Mapping.elType, hn, hi]
+
+/-- 3. the documented table in one statement, for a consistent source: mode 0 is the identity; mode 1 gives a
+MEL EL and profile 7 (or, F8, "profile 4" from a profile 8 source with `vdr_bit_depth_minus8 ≠ 4`); modes 2/3
+give profile 8 without EL, with the identity mapping iff the source was profile 5 or FEL and the mapping kept
+otherwise; mode 4 gives profile 8 with the static 8.4 reshaping; mode 5 gives profile 8 with the mapping kept -/
+theorem convert_table (m : Mode) (r r' : Rpu) (h : r.convertWithMode m = .ok r') (hc : Consistent r) :
+    match m with
+    | .lossless => r' = r
+    | .toMel =>
+        r'.rpu_data_mapping = r.rpu_data_mapping.map melMapping ∧
+        r'.el_type = r.rpu_data_mapping.map (fun _ => ElType.mel) ∧
+        (r'.dovi_profile = 7 ∨ (r.dovi_profile = 8 ∧ r.header.vdr_bit_depth_minus8 ≠ 4 ∧ r'.dovi_profile = 4))
+    | .to81 =>
+        r'.dovi_profile = 8 ∧ r'.el_type = none ∧
+        r'.rpu_data_mapping = (if r.dovi_profile = 5 ∨ r.el_type = some .fel then r.rpu_data_mapping.map identityMapping
+                               else r.rpu_data_mapping.map stripNlq)
+    | .to84 => r'.dovi_profile = 8 ∧ r'.el_type = none ∧ r'.rpu_data_mapping = some profile84Mapping
+    | .to81MappingPreserved =>
+        r'.dovi_profile = 8 ∧ r'.el_type = none ∧ r'.rpu_data_mapping = r.rpu_data_mapping.map stripNlq := by
+  have hacc := (convert_succeeds_iff m r).1 ⟨r', h⟩
+  cases m with
+  | lossless =>
+    rw [mode0_identity r hc] at h; cases h; rfl
+  | toMel =>
+    have ht := mode1_table r r' h
+    have hg := getDoviProfile_78 r.header (by rw [← hc.1]; exact hacc.1)
+    refine ⟨ht.2.1, ht.2.2.1, ?_⟩
+    rw [ht.2.2.2.2]
+    by_cases hb : r.header.vdr_bit_depth_minus8 = 4
+    · left; simp [hg.1, hb]
+    · right
+      refine ⟨?_, hb, by simp [hg.1, hb]⟩
+      rcases hacc.1 with h7 | h8
+      · exact absurd (hg.2 (by rw [← hc.1]; exact h7)) hb
+      · exact h8
+  | to81 =>
+    by_cases h5 : r.dovi_profile = 5
+    · have ht := mode2_table_p5 r r' h h5
+      exact ⟨ht.1, ht.2.1, by rw [ht.2.2.2.1]; simp [h5]⟩
+    · have h78 : r.dovi_profile = 7 ∨ r.dovi_profile = 8 := by
+        rcases hacc with h | h; exact absurd h h5; exact h
+      have ht := mode2_table_p78 r r' h h78
+      have hg := getDoviProfile_78 r.header (by rw [← hc.1]; exact h78)
+      exact ⟨ht.2.2.2.2 hg.1, ht.1, by rw [ht.2.2.1]; simp [h5]⟩
+  | to84 =>
+    have ht := mode4_table r r' h
+    exact ⟨ht.1, ht.2.1, ht.2.2.2.1⟩
+  | to81MappingPreserved =>
+    have ht := mode5_table r r' h
+    have hg := getDoviProfile_78 r.header (by rw [← hc.1]; exact hacc)
+    exact ⟨ht.2.2.2.2 hg.1, ht.1, ht.2.2.1⟩
+
+/-! ### 2. idempotence -/
+
+/-- the exact condition under which a successful conversion can be repeated with the same result -/
+def Repeatable (m : Mode) (r : Rpu) : Prop :=
+  match m with
+  | .lossless => True
+  | .toMel => r.header.vdr_rpu_profile = 1 ∧ r.header.vdr_bit_depth_minus8 = 4
+  | .to81 => r.dovi_profile = 5 ∨ r.header.vdr_rpu_profile = 1
+  | .to84 => True
+  | .to81MappingPreserved => r.header.vdr_rpu_profile = 1
+
+/-- converting twice equals converting once EXACTLY under `Repeatable` (so no weaker hypothesis works) -/
+theorem convert_idempotent_iff (m : Mode) (r r' : Rpu) (h : r.convertWithMode m = .ok r') :
+    r'.convertWithMode m = .ok r' ↔ Repeatable m r := by
+  have e : Repeatable m r ↔ IdemCond m r := by cases m <;> exact Iff.rfl
+  rw [e]; exact idem_iff m r r' h
+
+/-- 2. for a source whose `dovi_profile` is the one derived from its header (every parsed RPU, every conversion
+result), converting twice with the same mode equals converting once — except that mode 1 on a PROFILE 8 source
+additionally needs `vdr_bit_depth_minus8 = 4` (finding F8; the hypothesis is vacuous for modes ≠ 1 and for
+profile 7 sources) -/
+theorem convert_idempotent (m : Mode) (r r' : Rpu) (h : r.convertWithMode m = .ok r')
+    (hc : r.dovi_profile = r.header.getDoviProfile)
+    (hb : m = .toMel → r.dovi_profile = 8 → r.header.vdr_bit_depth_minus8 = 4) :
+    r'.convertWithMode m = .ok r' := by
+  rw [convert_idempotent_iff m r r' h]
+  have hacc := (convert_succeeds_iff m r).1 ⟨r', h⟩
+  cases m with
+  | lossless => trivial
+  | to84 => trivial
+  | toMel =>
+    have hp := hacc.1
+    have hg := getDoviProfile_78 r.header (by rw [← hc]; exact hp)
+    refine ⟨hg.1, ?_⟩
+    rcases hp with hp | hp
+    · exact hg.2 (by rw [← hc]; exact hp)
+    · exact hb rfl hp
+  | to81 =>
+    rcases hacc with h5 | h78
+    · exact .inl h5
+    · exact .inr (getDoviProfile_78 r.header (by rw [← hc]; exact h78)).1
+  | to81MappingPreserved => exact (getDoviProfile_78 r.header (by rw [← hc]; exact hacc)).1
+
+/-- F8, for all inputs: mode 1 on a profile-1 header with `vdr_bit_depth_minus8 ≠ 4` (possible only for
+profile 8 sources; the validator allows 0..6) yields something classified as profile 4, and the second
+conversion is an ERROR -/
+theorem mode1_p8_not_idempotent (r r' : Rpu) (h : r.convertWithMode .toMel = .ok r')
+    (h1 : r.header.vdr_rpu_profile = 1) (hb : r.header.vdr_bit_depth_minus8 ≠ 4) :
+    r'.dovi_profile = 4 ∧ r'.convertWithMode .toMel = .error := by
+  have hp : r'.dovi_profile = 4 := by rw [(mode1_table r r' h).2.2.2.2]; simp [h1, hb]
+  exact ⟨hp, cw_toMel_err_profile r' (by omega) (by omega)⟩
+
+/-- a valid, consistent profile 8.1 RPU (12-bit-signalled… here `vdr_bit_depth_minus8 = 2`) on which F8 shows -/
+def f8Dm : DmData where
+  main := p81Vals ++ [65535, 0, 0, 0, 12, 0, 0, 1, 7, 3079, 42]
+  cmv29 := some { num_ext_blocks := 1, blocks := [⟨1, 5, [7, 3079, 1200]⟩] }
+
+def f8Witness : Rpu where
+  dovi_profile := 8
+  el_type := none
+  header := { p8DefaultHeader with vdr_bit_depth_minus8 := 2 }
+  rpu_data_mapping := some (identityMapping {})
+  vdr_dm_data := some f8Dm
+
+theorem mode1_p8_not_idempotent_witness :
+    f8Witness.validate = true ∧ Consistent f8Witness ∧
+    ∃ r', f8Witness.convertWithMode .toMel = .ok r' ∧ r'.dovi_profile = 4 ∧ r'.validate = true ∧
+          r'.convertWithMode .toMel = .error := by
+  refine ⟨by decide, ⟨by decide, by decide⟩, _, rfl, by decide, by decide, by decide⟩
+
+/-- the consistency hypothesis of `convert_idempotent` is needed too: an in-memory RPU (the Rust fields are
+public) that claims profile 8 over a `vdr_rpu_profile = 0` header converts once and is rejected the second time -/
+example : ∃ r', ({ dovi_profile := 8 } : Rpu).convertWithMode .to81MappingPreserved = .ok r' ∧
+    r'.convertWithMode .to81MappingPreserved = .error := ⟨_, rfl, by decide⟩
+
+/-- hypotheses of `convert_idempotent` are satisfiable by non-trivial values (mode 1 on `f8Witness` with the
+bit depth repaired; mode 2 on a profile 5 RPU) -/
+example : ∃ r r' : Rpu, r.header.vdr_bit_depth_minus8 = 4 ∧ r.dovi_profile = r.header.getDoviProfile ∧
+    r.convertWithMode .toMel = .ok r' ∧ r'.dovi_profile = 7 ∧ r'.el_type = some .mel ∧ r'.modified = true :=
+  ⟨{ f8Witness with header := p8DefaultHeader }, _, rfl, by decide, rfl, by decide, by decide, by decide⟩
+
+example : ∃ r r' : Rpu, r.dovi_profile = 5 ∧ r.dovi_profile = r.header.getDoviProfile ∧
+    r.convertWithMode .to81 = .ok r' ∧ r'.dovi_profile = 8 ∧ r'.rpu_data_mapping = some (identityMapping {}) :=
+  ⟨({ dovi_profile := 5, header := { p8DefaultHeader with vdr_rpu_profile := 0, bl_video_full_range_flag := true },
+       rpu_data_mapping := some {} } : Rpu), _, rfl, by decide, rfl, by decide, by decide⟩
+
+/-! ### the result is accepted by the validator -/
+
+/-- the result of every successful conversion of a source that `DoviRpu::validate` accepts (and whose
+`dovi_profile` is the one derived from its header) is accepted by `DoviRpu::validate` — including the
+"profile 4" result of F8.  (Whether the ENCODER then reproduces it is the write side: F12–F14.) -/
+theorem convert_preserves_validate (m : Mode) (r r' : Rpu) (h : r.convertWithMode m = .ok r')
+    (hv : r.validate = true) (hc : r.dovi_profile = r.header.getDoviProfile) : r'.validate = true :=
+  validate_preserved m r r' h hv hc
+
+/-- non-vacuity: `f8Witness` is valid and consistent and every mode accepts it … -/
+example : f8Witness.validate = true ∧ f8Witness.dovi_profile = f8Witness.header.getDoviProfile ∧
+    ∀ m, Accepts m f8Witness := by
+  refine ⟨by decide, by decide, fun m => ?_⟩
+  cases m <;> simp [Accepts] <;> decide
+
+/-- … and the consistency hypothesis is needed: an in-memory RPU claiming profile 0 (for which the validator
+checks nothing profile-specific) over a profile 5 header with NLQ signalling is valid, mode 0 re-derives
+profile 5, and the result is no longer valid -/
+example : ∃ r r' : Rpu, r.validate = true ∧ r.convertWithMode .lossless = .ok r' ∧ r'.validate = false :=
+  ⟨{ dovi_profile := 0, header := { p8DefaultHeader with vdr_rpu_profile := 0, bl_video_full_range_flag := true },
+     rpu_data_mapping := some { nlq_method_idc := some 0 } }, _, by decide, rfl, by decide⟩
 
 end Dovi.C04
